@@ -109,7 +109,7 @@ func InstallPredicates(p *load.Program) {
 			return nil
 		}
 		f := c.Call.StaticCallee()
-		if f == nil || f.Signature.Recv() != nil {
+		if f == nil {
 			return nil
 		}
 		pf := predicateFacts(p, f)
